@@ -125,6 +125,23 @@ fn scalar_value(r: &mut Rng, id: &str) -> String {
     }
 }
 
+/// Is the item invalid by the rule alone (exactly one ':' and a path half of
+/// the shape category/package or ../../category/package)?  Decided without
+/// the library: a sibling that happens to be valid is not used as the fault.
+fn pkgsrc_free_invalid(item: &str) -> bool {
+    let parts: Vec<&str> = item.split(':').collect();
+    if parts.len() != 2 {
+        return true;
+    }
+    let segs: Vec<&str> = parts[1].split('/').filter(|s| !s.is_empty() && *s != ".").collect();
+    let ok = match segs.as_slice() {
+        [c, p] => *c != ".." && *p != "..",
+        ["..", "..", c, p] => *c != ".." && *p != "..",
+        _ => false,
+    };
+    !ok || parts[1].starts_with('/')
+}
+
 pub fn good_depend(r: &mut Rng, id: &str) -> String {
     // a vocabulary word as the whole pattern or as the category: still one
     // ':' with two valid halves
@@ -417,7 +434,25 @@ fn record(
                 if force == Force::BadDep {
                     let at = r.below(items.len() + 1);
                     let id = next_id("bad");
-                    items.insert(at, bad_depend(r, &id));
+                    // Half of the time the invalid item is a *sibling* of a valid
+                    // one of the same list: the same pattern and package with the
+                    // "../../" prefix doubled or halved, a second ':', a further
+                    // path component (a memo or interning table keyed on a
+                    // normalised form of the item would answer for it).
+                    let sib = if !items.is_empty() && r.chance(1, 2) {
+                        let g = items[r.below(items.len())].clone();
+                        let cand = match r.below(5) {
+                            0 => g.replacen(":../../", ":../../../../", 1),
+                            1 => g.replacen(":../../", ":../", 1),
+                            2 => g.replacen(':', "::", 1),
+                            3 => format!("{g}/extra"),
+                            _ => g.replacen(":../../", ":../../../../../../", 1),
+                        };
+                        if cand != g && pkgsrc_free_invalid(&cand) { Some(cand) } else { None }
+                    } else {
+                        None
+                    };
+                    items.insert(at, sib.unwrap_or_else(|| bad_depend(r, &id)));
                     fault_item = pos_name(at, items.len());
                     bad = Some(at);
                 }
@@ -635,7 +670,20 @@ impl BufRead for FaultReader<'_> {
             self.refills += 1;
             if self.refills == self.fail_at {
                 self.fired = true;
-                return Err(io::Error::new(io::ErrorKind::Other, "injected read error"));
+                // the kind rotates with the position: every hard error fails the
+                // read as a whole, whatever it is called (Interrupted, which
+                // BufRead retries by contract, is not among them)
+                const KINDS: [io::ErrorKind; 8] = [
+                    io::ErrorKind::Other,
+                    io::ErrorKind::UnexpectedEof,
+                    io::ErrorKind::BrokenPipe,
+                    io::ErrorKind::TimedOut,
+                    io::ErrorKind::InvalidData,
+                    io::ErrorKind::ConnectionReset,
+                    io::ErrorKind::WouldBlock,
+                    io::ErrorKind::PermissionDenied,
+                ];
+                return Err(io::Error::new(KINDS[(self.fail_at + self.data.len()) % KINDS.len()], "injected read error"));
             }
             self.end = (self.pos + self.bufsize).min(self.data.len());
         }
